@@ -70,7 +70,7 @@ def only(rules, port):
 
 PROPS = {
     'C01': {
-        'rules': SK_LOOP + SK_SELECT + both(sk.rule_sk_stop, sk.rule_sk_err) + both(hd.rule_va_index, hd.rule_hd_startwin, hd.rule_hd_except, ow.rule_ow_fresh, ow.rule_ow_selwrap, pa.rule_pa_litflow, pa.rule_pa_subst),
+        'rules': SK_LOOP + SK_SELECT + both(sk.rule_sk_stop, sk.rule_sk_err) + both(hd.rule_va_index, hd.rule_hd_startwin, hd.rule_hd_except, ow.rule_ow_fresh, ow.rule_ow_selwrap, pa.rule_pa_litflow, pa.rule_pa_subst) + both(pa.rule_pa_litorder),
         'thorough_rules': both(sk.rule_sk_alias, wr.rule_wr_ret, wr.rule_wr_prop) + one(xp.rule_xp_verdicts),
         'explanation': 'Decides the loop structure of every generated SELECT program (all 16 select configurations per port, composed by partially evaluating the code generator from its own source): end-of-input test before NR, NR/NF definitions, variable initialisation dominating every user fragment and placed inside the join-match loop, WHERE control dependence, exactly one emission per evaluation selected by (aggregation stage, UNNEST), UNNEST reset on every cycle through the select fragment, join pairing order; plus aN/a[N] -> index N-1 with the safe_get guard, star/EXCEPT expansion as fresh lists. Text handling on the way into the program: structural matchers receive literal-free text (the extracted literal list counts as literal content), and every template-interpreting substitution (String.replace / re.sub) has a constant or functional replacement operand, so user text is never re-interpreted.',
         'not_decided': 'that the regex-based rewriting of an arbitrary select list preserves its meaning (comma structure inside nested brackets, AS inside expressions); values computed by user expressions.',
@@ -88,7 +88,7 @@ PROPS = {
         'not_decided': 'floating-point rounding of the accumulators and the order of additions (AG-FOLD decides the fold expressions up to algebraic identity over the rationals, AG-MEDIAN the even/odd selection; bit-exact results are statements about runtime values).',
     },
     'C04': {
-        'rules': JN_ALL + both(sk.rule_sk_join, sk.rule_sk_vars, sk.rule_sk_unnest, pa.rule_pa_groups, hd.rule_va_index),
+        'rules': JN_ALL + both(sk.rule_sk_join, sk.rule_sk_vars, sk.rule_sk_unnest, pa.rule_pa_groups, hd.rule_va_index) + both(sk.rule_sk_stop, sk.rule_sk_copy),
         'thorough_rules': both(sk.rule_sk_where, sk.rule_sk_emit, sk.rule_sk_unnest, sk.rule_sk_upd, sk.rule_sk_err) + one(xp.rule_xp_keywords, xp.rule_rx_xp),
         'explanation': 'Decides join pairing structure: longest join keyword wins, keyword -> joiner table total and name-consistent, B map appended in read order with 1-based bNR and (bNR, bNF, record) triples, build() before joiner construction, LEFT null record of max_record_len Nones, STRICT != 1 raises, A-side and B-side key representations switch on the same condition, ON accepts = and == in either operand order, NR keys -> index -1; in the generated program each A record is paired with get_rhs(key) matches in order and the whole select block (variables, WHERE, SELECT, sort/group key) is inside the match loop; UPDATE JOIN: >1 raises, 1 binds, 0 binds Nones and skips assignments.',
         'not_decided': 'equality of key values (hashing of user data) - trusted to dict/Map semantics.',
@@ -124,7 +124,7 @@ PROPS = {
         'not_decided': 'completeness of the candidate filter for spellings of a name other than the canonical escaped one.',
     },
     'C10': {
-        'rules': both(cs.rule_cs_trigger, cs.rule_cs_dispatch, cs.rule_cs_width, cs.rule_cs_writer, cs.rule_rx_field, rs.rule_fl_flags, rs.rule_fl_none_complete, rd.rule_rd_bom) + one(rd.rule_rd_jschunk),
+        'rules': both(cs.rule_cs_trigger, cs.rule_cs_dispatch, cs.rule_cs_width, cs.rule_cs_writer, cs.rule_rx_field, rs.rule_fl_flags, rs.rule_fl_none_complete, rd.rule_rd_bom) + one(rd.rule_rd_jschunk) + both(cs.rule_rx_ws),
         'thorough_rules': both(cs.rule_cs_accept, cs.rule_cs_extws, cs.rule_rx_newline) + one(xp.rule_rx_xp),
         'explanation': 'Decides necessary conditions of the round trip (stated as such): the characters that trigger quoting include every character the reader treats specially under the same policy, inner quotes are doubled (globally) and the field enclosed, reader/writer dispatch tables are total over the five policies and pair matching split/join, delimiter comparisons and position steps use the delimiter length, one separator per record, and lossy output (None, delimiter in simple output) always sets its warning flag which get_warnings reports.',
         'not_decided': 'equality of the table read back for any table (a round-trip statement over all strings); encoding behaviour of io.TextIOWrapper.',
@@ -142,7 +142,7 @@ PROPS = {
         'not_decided': 'equality of results over all partitions (a statement about schedules x strings).',
     },
     'C13': {
-        'rules': IF_ALL,
+        'rules': IF_ALL + one(ow.rule_ow_pandas),
         'thorough_rules': both(conf.rule_rs_proto) + py(cs.rule_cs_dispatch),
         'explanation': 'Decides that the engine cannot tell adapters apart and the CLI channel discipline: the engine imports no adapter and never inspects an adapter type; every adapter implements the interface with the engine\'s arity and hands the engine lists; every entry point delegates the unchanged query to rbql_engine.query; on the non-interactive path nothing but --version prints to stdout, errors are `Error [type]: msg` and warnings `Warning: msg` on stderr, every failure ends in sys.exit(1), success falls off main; error type map and out-format/default-policy tables. An option to which the CLI assigns a falsy legal value is tested by presence only; every registry returns an iterator constructed by that call; the runner maps any exception to show_error + False and success to True (path summaries, helper followed); the CSV header is emitted on every path.',
         'not_decided': 'equality of results across back-ends (depends on pandas/sqlite value conversion).',
@@ -172,13 +172,13 @@ PROPS = {
         'not_decided': 'nothing further for single-line texts once re.escape / RegExp semantics are trusted (`.` and `$` treat LF specially - outside the quantifier).',
     },
     'C18': {
-        'rules': XP_ALL + both(cs.rule_rx_field, cs.rule_rx_ws, cs.rule_rx_newline, cs.rule_cs_trigger, cs.rule_cs_accept, cs.rule_cs_width, cs.rule_cs_extws, cs.rule_cs_dispatch, hd.rule_hd_table, rd.rule_rd_bom) + one(rd.rule_rd_jschunk),
+        'rules': XP_ALL + both(cs.rule_rx_field, cs.rule_rx_ws, cs.rule_rx_newline, cs.rule_cs_trigger, cs.rule_cs_accept, cs.rule_cs_width, cs.rule_cs_extws, cs.rule_cs_dispatch, hd.rule_hd_table, rd.rule_rd_bom) + one(rd.rule_rd_jschunk) + both(conf.rule_hd_countpos) + js(ow.rule_ow_mut),
         'thorough_rules': both(rd.rule_rd_bom, rd.rule_rd_comment, rd.rule_rd_rfc, rs.rule_fl_flags, rs.rule_fl_fields, cs.rule_rx_newline, cs.rule_rx_ws),
         'explanation': 'Decides agreement of canonical facts extracted independently from each port: 27 paired regexes language-equal (or allow-listed with reason), both quoted-field regexes equal to the reference language, same quote trigger sets, same acceptance rule and delimiter-width handling, same policy dispatch, same statement keywords and groups (FROM only in Python), same reader warning and IO error message templates, same header naming decision table; both ports are held to the same rule for BOM/comment/RFC handling.',
         'not_decided': 'header inference on arbitrary select lists (python ast vs JS text spans are different algorithms); behavioural equality of the two reader architectures.',
     },
     'C19': {
-        'rules': only(SK_ALL, 'js') + only(WR_ALL, 'js') + only(CONF_ALL, 'js') + only(AG_ALL, 'js') + only(JN_ALL, 'js') + only(HD_ALL, 'js') + js(ow.rule_ow_mut, ow.rule_ow_fresh, ow.rule_ow_selwrap, pa.rule_pa_subst, pa.rule_pa_litflow) + one(xp.rule_xp_verdicts, xp.rule_xp_roles),
+        'rules': only(SK_ALL, 'js') + only(WR_ALL, 'js') + only(CONF_ALL, 'js') + only(AG_ALL, 'js') + only(JN_ALL, 'js') + only(HD_ALL, 'js') + js(ow.rule_ow_mut, ow.rule_ow_fresh, ow.rule_ow_selwrap, pa.rule_pa_subst, pa.rule_pa_litflow) + one(xp.rule_xp_verdicts, xp.rule_xp_roles) + only(LK_ALL, 'js'),
         'thorough_rules': only(PA_ALL, 'js') + only(VA_ALL, 'js') + one(xp.rule_rx_xp, xp.rule_xp_keywords),
         'explanation': 'Applies to rbql.js every rule that defines the reference semantics of C01-C05 and C07 (same rule = same semantics): all skeleton rules on the 20 composed JS programs, writer chain, configuration table, aggregates, joins, header rules, and the ownership analysis for the caller\'s arrays; plus cross-port agreement of parser outcomes and class sets.',
         'not_decided': 'meaning of user expressions in two languages.',
